@@ -212,6 +212,10 @@ def run_bounded(pid, tier, seed, repo):
 
 
 def main():
+    if os.environ.get('PYTHONHASHSEED') != '0':
+        # set/dict iteration order feeds the order of solver assertions: make runs reproducible
+        os.environ['PYTHONHASHSEED'] = '0'
+        os.execv(sys.executable, [sys.executable, '-m', 'pyvc.check'] + sys.argv[1:])
     ap = argparse.ArgumentParser()
     ap.add_argument('pid')
     ap.add_argument('--tier', default=os.environ.get('VERIF_TIER', 'quick'))
@@ -242,7 +246,7 @@ def main():
         else:
             jobs.append((args.repo, pid, k, i, None))
     if jobs:
-        with multiprocessing.Pool(min(args.jobs, len(jobs))) as pool:
+        with multiprocessing.Pool(min(args.jobs, len(jobs)), maxtasksperchild=1) as pool:  # fresh z3 state per job: reproducible
             parts = pool.map(worker, jobs, chunksize=1)
     else:
         parts = []
@@ -290,6 +294,8 @@ def main():
             ob = obligations.setdefault(key, {'queries': 0, 'unsat': 0, 'sat': 0, 'unknown': 0, 'ms': 0.0,
                                               'kind': r['kind'], 'function': rep['name']})
             ob['queries'] += 1
+            ob.setdefault('backends', {})
+            ob['backends'][r['backend']] = ob['backends'].get(r['backend'], 0) + 1
             ob[r['status']] += 1
             ob['ms'] += r['ms']
             b = backends.setdefault(r['backend'], {'queries': 0, 'ms': 0.0})
